@@ -14,20 +14,26 @@ def sh(cmd, timeout=None, cwd=None):
     except subprocess.TimeoutExpired as e:
         return 124, (e.stdout or b"").decode(errors="replace") + "\n<timeout>", time.time() - t0
 
+KEYS = ("fcap", "len", "n", "nnz", "m", "range")
 def tasks_for(unit, tier):
-    T = tier == "thorough"; out = []
-    fc = unit["fcap"][tier if T else "quick"]
-    for L in range(0, fc + 1): out.append(dict(harness="read_crs_robust", fcap=fc, len=L, fn="h_read_crs_robust", defines=["FCAP=%d" % fc]))
-    fd = unit["fcap_dense"][tier if T else "quick"]
-    for L in range(0, fd + 1, 1 if T else 2): out.append(dict(harness="read_dense_robust", fcap=fd, len=L, fn="h_read_dense_robust", defines=["FCAP=%d" % fd]))
-    N, Z = unit["roundtrip"][tier if T else "quick"]
-    for n in range(0, N + 1):
-        for z in range(0, Z + 1):
-            if n == 0 and z > 0: continue
-            out.append(dict(harness="crs_roundtrip", n=n, nnz=z, fn="h_crs_roundtrip", defines=["N=%d" % max(n, 1), "NNZ=%d" % max(z, 1)]))
-    D = unit["dense"][tier if T else "quick"]
-    for n in range(0, D + 1):
-        for m in range(0, D + 1): out.append(dict(harness="dense_roundtrip", n=n, m=m, fn="h_dense_roundtrip", defines=["N=%d" % max(n, m, 1)]))
+    T = tier == "thorough"; out = []; q = "thorough" if T else "quick"
+    if unit["kind"] == "io":
+        fc = unit["fcap"][q]
+        for L in range(0, fc + 1): out.append(dict(harness="read_crs_robust", fcap=fc, len=L, fn="h_read_crs_robust", defines=["FCAP=%d" % fc]))
+        fd = unit["fcap_dense"][q]
+        for L in range(0, fd + 1, 1 if T else 2): out.append(dict(harness="read_dense_robust", fcap=fd, len=L, fn="h_read_dense_robust", defines=["FCAP=%d" % fd]))
+        N, Z = unit["roundtrip"][q]
+        for n in range(0, N + 1):
+            for z in range(0, Z + 1):
+                if n == 0 and z > 0: continue
+                out.append(dict(harness="crs_roundtrip", n=n, nnz=z, fn="h_crs_roundtrip", defines=["N=%d" % max(n, 1), "NNZ=%d" % max(z, 1)]))
+        for (n, z) in unit["roundtrip8"][q]: out.append(dict(harness="crs_roundtrip8", n=n, nnz=z, fn="h_crs_roundtrip8", defines=["N=%d" % max(n, 1), "NNZ=%d" % max(z, 1)]))
+        D = unit["dense"][q]
+        for n in range(0, D + 1):
+            for m in range(0, D + 1): out.append(dict(harness="dense_roundtrip", n=n, m=m, fn="h_dense_roundtrip", defines=["N=%d" % max(n, m, 1)]))
+    else:   # MatrixMarket reader at token level: n = number of lines, m = 1 valid banner / 0 any banner
+        for nl in unit["header_lines"][q]: out.append(dict(harness="mm_sparse_robust", n=nl, m=0, range=(-1, -1), fn="h_mm_sparse_robust", defines=[]))
+        for nl, rng in unit["body"][q]: out.append(dict(harness="mm_sparse_robust", n=nl, m=1, range=rng, fn="h_mm_sparse_robust", defines=[]))
     return out
 
 def run(pid, units, tier, seed, bdir, repo, root, jobs):
@@ -35,7 +41,7 @@ def run(pid, units, tier, seed, bdir, repo, root, jobs):
     for unit in units:
         base = os.path.join(bdir, unit["name"]); src = os.path.join(root, "cwrap", unit["wrapper"])
         flags = [f.replace("{ROOT}", root) for f in unit.get("clang_flags", [])]
-        rc, out, dt = sh(enginec.CLANG + ["-I" + repo, "-I" + os.path.join(root, "cwrap")] + flags + [src, "-o", base + ".ll"], timeout=600)
+        rc, out, dt = sh(enginec.CLANG + flags + ["-I" + repo, "-I" + os.path.join(root, "cwrap")] + [src, "-o", base + ".ll"], timeout=600)
         if rc != 0: res["broken"].append("clang failed on %s:\n%s" % (unit["wrapper"], out[-2000:])); continue
         ir_lines = sum(1 for _ in open(base + ".ll")); fns = re.findall(r"^define [^@]*(@[\w.$]+)", open(base + ".ll").read(), re.M)
         # ---- translator validation: the executor in concrete mode against the native g++ build (real files, real std::fstream) on the driver's script
@@ -46,7 +52,7 @@ def run(pid, units, tier, seed, bdir, repo, root, jobs):
             if rc != 0: res["broken"].append("native driver build failed: %s\n%s" % (" ".join(c), out[-1500:])); ok = False; break
         if not ok: continue
         a = sh([base + "_drv_real", str(seed)], timeout=300); iters = unit.get("diff_iters", 30)
-        b = sh([PY, os.path.join(root, "lib", "c19x.py"), "--ll", base + ".ll", "--diff", str(iters), str(seed)], timeout=1200)
+        b = sh([PY, os.path.join(root, "lib", "c19x.py"), "--ll", base + ".ll", unit.get("diff_opt", "--diff"), str(iters), str(seed)], timeout=1800)
         la = a[1].split("\n"); lb = [x for x in b[1].split("\n") if x.strip()]
         if a[0] != 0 or b[0] != 0 or not lb or la[:len(lb)] != lb:
             k = next((i for i in range(min(len(la), len(lb))) if la[i] != lb[i]), -1)
@@ -56,10 +62,10 @@ def run(pid, units, tier, seed, bdir, repo, root, jobs):
         for x in unit.get("assumptions", []): res["assumptions"].add(x)
         tasks = tasks_for(unit, tier); budget = unit["budget_s"][tier if tier == "thorough" else "quick"]
         def work(t):
-            outp = base + "_%s_%s.json" % (t["harness"], "_".join("%s%s" % (k, t[k]) for k in ("fcap", "len", "n", "nnz", "m") if k in t))
+            outp = base + "_%s_%s.json" % (t["harness"], "_".join("%s%s" % (k, "x".join(map(str, t[k])) if k == "range" else t[k]) for k in KEYS if k in t))
             cmd = [PY, os.path.join(root, "lib", "c19x.py"), "--ll", base + ".ll", "--harness", t["harness"], "--budget", str(budget), "--timeout-ms", str(unit.get("solver_timeout_ms", 30000)), "--out", outp]
-            for k in ("fcap", "len", "n", "nnz", "m"):
-                if k in t: cmd += ["--" + k, str(t[k])]
+            for k in KEYS:
+                if k in t: cmd += ["--" + k] + ([str(x) for x in t[k]] if k == "range" else [str(t[k])])
             rc, out, dt = sh(cmd, timeout=budget * 2 + 120)
             try: data = json.load(open(outp))
             except Exception: data = None
@@ -69,7 +75,7 @@ def run(pid, units, tier, seed, bdir, repo, root, jobs):
         for t, rc, out, dt, data in results:
             key = t["harness"]; H = S["harnesses"].setdefault(key, dict(tasks=0, paths=0, forks=0, instructions=0, bounds_checks=0, path_end_checks=0, queries=0, solver_s=0.0, incomplete=0, findings=0, max_task_s=0.0))
             H["tasks"] += 1; res["evaluations"] += 1
-            label = "%s(%s)" % (key, ", ".join("%s=%s" % (k, t[k]) for k in ("fcap", "len", "n", "nnz", "m") if k in t))
+            label = "%s(%s)" % (key, ", ".join("%s=%s" % (k, t[k]) for k in KEYS if k in t))
             if data is None:
                 H["incomplete"] += 1; res["inconclusive"].append("engine X: %s gave no result (rc=%d): %s" % (label, rc, out[-300:].replace("\n", " "))); continue
             for k, src_k in (("paths", "paths"), ("forks", "forks"), ("instructions", "instructions"), ("bounds_checks", "bounds_checks"), ("path_end_checks", "path_ends_checked"), ("queries", "queries")): H[k] += data[src_k]
